@@ -2,6 +2,7 @@ SPECIFICATION Spec
 CONSTANTS
   Configs <- ConfigsBoundary
   Budget = 1
+  Window <- WindowBoundary
   Bug = "none"
 INVARIANT TableAtDone
 INVARIANT TableStaysOK
